@@ -878,7 +878,7 @@ func (c *Cursor) Backward(ctx context.Context) error {
 	}
 	pe := &c.path[len(c.path)-1]
 	node := pe.node
-	if node.Link[pe.linkIndex] != nil {
+	if pe.linkIndex >= 0 && node.Link[pe.linkIndex] != nil {
 		node, err := c.m.load(ctx, pe.node.Link[pe.linkIndex])
 		if err != nil {
 			return fmt.Errorf("load: %w", err)
